@@ -272,6 +272,31 @@ static const char *vh_step(const vh_step_t *st, vh_sb *ret, vh_sb *state) {
         sb_int(ret, (long) SPIF_LIST_COUNT(l));
     } else if (OP("del_listing")) {
         nlists--; sb_bool(ret, SPIF_LIST_DEL(lists[nlists]));
+    } else if (OP("null_probe")) {
+        /* NULL where an object is expected, on a scratch container of the class under test: accepted or refused (not judged
+         * here) - but nothing may be left behind once the scratch container is deleted (heap balance at the end of the script) */
+        const char *w = st->args[0]; int one = st->nargs > 1 && !strcmp(st->args[1], "one");
+        spif_obj_t sc = new_cont();
+        if (one) {
+            spif_str_t e = spif_str_new_from_ptr((spif_charptr_t) "7");
+            if (is_seq()) SPIF_LIST_APPEND(sc, e);
+            else if (is_vec()) SPIF_VECTOR_INSERT(sc, e);
+            else { SPIF_MAP_SET(sc, e, e); spif_str_del(e); }
+        }
+        if (is_seq()) {
+            if (!strcmp(w, "append")) SPIF_LIST_APPEND(sc, (spif_obj_t) NULL);
+            else if (!strcmp(w, "prepend")) SPIF_LIST_PREPEND(sc, (spif_obj_t) NULL);
+            else if (!strcmp(w, "insert")) SPIF_LIST_INSERT(sc, (spif_obj_t) NULL);
+            else if (!strcmp(w, "insert_at")) SPIF_LIST_INSERT_AT(sc, (spif_obj_t) NULL, 0);
+        } else if (is_vec()) {
+            if (!strcmp(w, "insert")) SPIF_VECTOR_INSERT(sc, (spif_obj_t) NULL);
+        } else if (!strcmp(w, "set")) {
+            spif_str_t k = spif_str_new_from_ptr((spif_charptr_t) "8");
+            SPIF_MAP_SET(sc, k, (spif_obj_t) NULL);
+            spif_str_del(k);
+        }
+        SPIF_OBJ_DEL(sc);
+        sb_bool(ret, 1);
     } else if (OP("iter_new")) {
         iter = iterator(C); sb_bool(ret, !SPIF_ITERATOR_ISNULL(iter));
     } else if (OP("iter_del")) {
